@@ -15,7 +15,7 @@ warnings.filterwarnings("ignore")
 
 
 class ProbeWCS(BaseLowLevelWCS):
-    def __init__(self, A, b, shape=None, units=None, names=None, ptypes=None):
+    def __init__(self, A, b, shape=None, units=None, names=None, ptypes=None, bounds=None):
         self.A = np.array(A, dtype=float)
         self.b = np.array(b, dtype=float)
         self.Ainv = None
@@ -24,6 +24,7 @@ class ProbeWCS(BaseLowLevelWCS):
             if np.array_equal(inv @ self.A, np.eye(len(self.A))):
                 self.Ainv = inv
         self._shape = None if shape is None else tuple(int(s) for s in shape)
+        self._bounds = bounds
         n = self.A.shape[0]
         self._un = list(units) if units else ["m"] * n
         self._names = list(names) if names else [f"w{i}" for i in range(n)]
@@ -35,7 +36,7 @@ class ProbeWCS(BaseLowLevelWCS):
     world_axis_units = property(lambda s: list(s._un))
     array_shape = property(lambda s: s._shape)
     pixel_shape = property(lambda s: None if s._shape is None else tuple(s._shape[::-1]))
-    pixel_bounds = None
+    pixel_bounds = property(lambda s: s._bounds)
     serialized_classes = False
     world_axis_names = property(lambda s: list(s._names))
     pixel_axis_names = property(lambda s: [f"p{i}" for i in range(s.pixel_n_dim)])
